@@ -449,7 +449,43 @@ def _labelcolumn():
     return _c.shared("c20", "rule_converters", "C08.LABELCOLUMN", keep=lambda o: o.construct == "io.load_delimited:split")
 
 
+def rule_allitems(ctx):
+    """A score that is a sum / count over all items of an annotation visits every item: the loop over the reference
+    patterns of pattern.standard_FPR (and over the frames / variations of the other list-driven metrics) has no `break`
+    or `return` of its own - an early stop makes the result depend on where in the list the stopping item sits."""
+    import ast
+
+    R = "C08.ALLITEMS"
+    n = 0
+    for q, itname in (("pattern.standard_FPR", "reference_patterns"), ("pattern.occurrence_FPR", None), ("pattern.three_layer_FPR", None), ("multipitch.compute_num_true_positives", None), ("multipitch.compute_num_freqs", None)):
+        if not ctx.program.has_func(q):
+            continue
+        f = ctx.program.func(q, R)
+        for loop in ast.walk(f.node):
+            if not isinstance(loop, ast.For):
+                continue
+            it = ast.unparse(loop.iter)
+            if itname is not None and itname not in it:
+                continue
+            if itname is None and not any(isinstance(x, ast.Name) and x.id in f.params for x in ast.walk(loop.iter)):
+                continue
+
+            def own(node):
+                for ch in ast.iter_child_nodes(node):
+                    if isinstance(ch, (ast.For, ast.While, ast.FunctionDef, ast.Lambda)):
+                        continue
+                    if isinstance(ch, (ast.Break, ast.Return)):
+                        yield ch
+                    yield from own(ch)
+
+            stops = list(own(loop))
+            n += 1
+            yield ob(R, f, "%s:loop@%d" % (q, n), not stops, "the loop over %s visits every item" % it[:40] if not stops else "the loop over %s can stop early (line %d): items listed after the stopping one are never scored, so the result depends on their order" % (it[:40], stops[0].lineno), node=loop)
+    need(n >= 4, R, "only %d item loops found" % n)
+
+
 RULES = [
+    ("C08.ALLITEMS", 6, rule_allitems),
     ("C08.LABELCOLUMN", 1, _labelcolumn()),
     ("C08.NONETRUTH", 5, rule_nonetruth),
     ("C08.GENREUSE", 1, rule_genreuse),
